@@ -74,3 +74,7 @@ add("C11", "translation_validation",
     "Forking symbolic execution of the real bench line parser on symbolic text (identifier characters and operator letter case are z3 integers; all paths explored, coverage proven by z3; per path z3 decides that the recorded gate is what the text denotes), plus translation validation: format->parse round trip (string and file) and parsed-circuit-vs-text denotation (z3 equivalence with the reference semantics) over a circuit family, a keyword-heavy label alphabet and textual layouts.",
     "Trusted: CPython, z3, SymStr proxy (vlib/symstr.py), reference semantics. Bounded: labels <=7 symbolic characters, operands <=2; circuits <=4 inputs/<=8 gates; 3-6 layouts each. CrossHair was tried for (a) and stayed inconclusive (150 s); it is not used.",
     "forking symbolic execution over symbolic strings + z3 equivalence of parsed circuits", "DESIGN.md §3 C11")
+add("C12", "other",
+    "Bounded symbolic execution over a fully symbolic truth table: TruthTable, PyFunction and a Circuit (mux tree with symbolic constant leaves) are constructed directly in the symbolic state, every protocol query with every index argument runs on each under the forking executor (forks only where the real code compares table entries; path coverage proven by z3) and per path z3 decides answer == mathematical definition; model completion with symbolic values/definitions; integer wrappers against bit-vector specs; CrossHair side condition on the index conversions.",
+    "Trusted: CPython, z3, proxies, the z3 definitions in checks/c12.py. Bounded: shapes up to 3 inputs x 1 output and 2x2 (quick), +3x2 (thorough). Constructors' own entry validation is bypassed (state constructed directly). CrossHair 'Not confirmed' reported inconclusive.",
+    "bounded symbolic execution (forking executor over a symbolic truth table) with z3 definitions", "DESIGN.md §3 C12")
